@@ -89,11 +89,20 @@ async fn run_scenario(sc: Value, agent: String, acceptor: tokio_rustls::TlsAccep
                               "expect": run["expect"], "irr_mode": irr_mode, "faults": run["faults"],
                               "twin": twin, "style": flags.join("+")}));
         let mut cmd = tokio::process::Command::new(&agent);
-        cmd.args(["-f", "0", "--irrd-host", "127.0.0.1", "--irrd-port", &irrd.addr.port().to_string(), "--ephemeral-db", &inst,
-                  "remote", "--netconf-host", "127.0.0.1", "--netconf-port", &junos.addr.port().to_string(),
-                  "--ca-cert-path", &pki("ca.crt"), "--client-cert-path", &pki("client.crt"), "--client-key-path", &pki("client.key"),
-                  "--tls-server-name", "localhost"])
-            .stdin(Stdio::null())
+        let local = run["target"].as_str() == Some("local") || sc["target"].as_str() == Some("local");
+        if local {
+            // the agent's local target: it spawns /usr/sbin/cli (a shim installed by bin/setup that execs
+            // $BGPFU_VERIF_CLI), which here is a byte bridge to the same fake router without TLS
+            let exe = std::env::current_exe().unwrap();
+            cmd.env("BGPFU_VERIF_CLI", format!("{} clibridge {}", exe.display(), junos.plain_addr.port()));
+            cmd.args(["-f", "0", "--irrd-host", "127.0.0.1", "--irrd-port", &irrd.addr.port().to_string(), "--ephemeral-db", &inst, "local"]);
+        } else {
+            cmd.args(["-f", "0", "--irrd-host", "127.0.0.1", "--irrd-port", &irrd.addr.port().to_string(), "--ephemeral-db", &inst,
+                      "remote", "--netconf-host", "127.0.0.1", "--netconf-port", &junos.addr.port().to_string(),
+                      "--ca-cert-path", &pki("ca.crt"), "--client-cert-path", &pki("client.crt"), "--client-key-path", &pki("client.key"),
+                      "--tls-server-name", "localhost"]);
+        }
+        cmd.stdin(Stdio::null())
             .stdout(Stdio::null())
             .stderr(Stdio::piped())
             .kill_on_drop(true);
@@ -274,6 +283,44 @@ fn main() {
                     }
                 }
             });
+        }
+        Some("clibridge") => {
+            // agentrun clibridge <port>: what the /usr/sbin/cli shim execs - copies stdin to the fake router and the
+            // router's output to stdout, like `cli xml-mode netconf need-trailer` does on a Junos system
+            use std::io::Read;
+            let port: u16 = args[2].parse().expect("port");
+            let sock = std::net::TcpStream::connect(("127.0.0.1", port)).expect("connect to the fake router");
+            let _ = sock.set_nodelay(true);
+            let mut up = sock.try_clone().expect("clone");
+            let mut down = sock;
+            std::thread::spawn(move || {
+                let mut b = [0u8; 16384];
+                let mut stdin = std::io::stdin();
+                loop {
+                    match stdin.read(&mut b) {
+                        Ok(n) if n > 0 => {
+                            if up.write_all(&b[..n]).is_err() {
+                                break;
+                            }
+                        }
+                        _ => break,
+                    }
+                }
+                let _ = up.shutdown(std::net::Shutdown::Write);
+            });
+            let mut b = [0u8; 16384];
+            let mut stdout = std::io::stdout();
+            loop {
+                match down.read(&mut b) {
+                    Ok(n) if n > 0 => {
+                        if stdout.write_all(&b[..n]).is_err() || stdout.flush().is_err() {
+                            break;
+                        }
+                    }
+                    _ => break,
+                }
+            }
+            std::process::exit(0);
         }
         Some("irrd") => {
             // agentrun irrd <db.json>: stand-alone fake IRRd for manual experiments; prints the port
